@@ -46,18 +46,23 @@ ASSUMPTIONS = [
     "tolerance 1e-7 (rotation entries) and 1e-7*max(1, |p| scale) (translations, linear Jacobian rows); 5e-6 instead when "
     "a rotation angle that enters a library exp/log in the step (base, tool, relative tool change, joint value) lies "
     "in the open NearZero band (1e-9, 2e-6)",
-    "poses the library round-trips through its axis-angle form whose rotation is within 2e-5 of a half turn are the "
-    "open finding C01-near-pi-log: such tool changes are not executed (counted), such joint frames are not compared",
+    "poses the library round-trips through its axis-angle form whose rotation is within 1e-3 of a half turn are the "
+    "open finding C01-near-pi-log seen at this property's 1e-7 (MatrixLog3 error ~2.6e-16/(pi-angle)^2): such tool "
+    "changes are not executed (counted), such joint frames are not compared",
     "a free IK (protect=True) that leaves the stored joint vector outside the limits is followed by an explicit FK "
     "of the clamped vector before anything is compared (the statement does not say what the state means there)",
-    "IKFree is only issued on arms with >= 2 joints",
+    "IKFree is only issued on arms with >= 2 joints and with at most 6 free indices (its least-squares solver "
+    "rejects more unknowns than the 6 residuals; a 1-joint arm makes np.squeeze produce a 0-d array)",
 ]
 SHARDS = {"quick": 4, "thorough": 16}
 
 TOL = 1e-7
 LOOSE = 5e-6
 BAND_LO, BAND_HI = 1e-9, 2e-6
-NEAR_PI = 2e-5
+# The library's axis-angle round trip (MatrixLog3) loses accuracy as the angle approaches pi: measured error
+# ~2.6e-16/(pi-angle)^2, i.e. 3e-6 at 1e-5, 3e-8 at 1e-4, 3e-11 at 1e-3 (open finding C01-near-pi-log, stated there
+# for C01's 5e-6 tolerance as pi-angle < 2e-5).  At this property's 1e-7 the affected band is pi-angle < 1e-3.
+NEAR_PI = 1e-3
 
 _lib = {}
 
@@ -292,6 +297,13 @@ def run_history(case, ctx, allowed=None, fresh=False):
         tol.add_sticky(ang(model.B), ang(model.M0), ang(model.B @ model.M0))
         if model.built_by_move:
             taint_joints_on_move(st_, np.eye(4), model.B, tol)
+        elif model.kind != "urdf" and model.n:
+            # the constructor derives eef -> last joint through the axis-angle form
+            Hl = model.H[model.n - 1]
+            rel = O.inv(model.M0) @ Hl
+            if near_pi(model.B @ model.M0, model.B @ Hl, rel):
+                st_.joint_taint[model.n - 1] = True
+            tol.add_sticky(ang(model.B @ Hl), ang(rel))
         nonid_seen = bool(np.any(base6 != 0))   # some base of the history is not the identity
         changed = False                          # a move or a tool change has been executed
         nontrivial = False
@@ -406,6 +418,7 @@ def step_ikfree(arm, st_, tol, ctx, k, op):
     inds = [i for i in range(m.n) if (int(op["mask"]) >> i) & 1]
     if not inds:
         inds = [int(op["mask"]) % m.n]
+    inds = inds[:6]      # IKFree solves 6 residuals with scipy's 'lm', which needs #unknowns <= 6
     random.seed(int(op["seed"]))
     res = sut(arm.IKFree, mk_tm(goal), init.copy(), inds)
     if not (isinstance(res, tuple) and len(res) == 2):
@@ -583,7 +596,7 @@ def c_history_all(case, ctx):
 
 
 CLAUSES = [
-    Clause("fresh_arm_fk_is_base_poe_home", c_fresh, histories(op_fk, min_size=1, max_size=1), 600, 12000),
-    Clause("history_fk_move_tool", c_history_kin, histories(OPS_NO_IK), 500, 24000),
-    Clause("history_with_solvers", c_history_all, histories(OPS_ALL), 400, 16000),
+    Clause("fresh_arm_fk_is_base_poe_home", c_fresh, histories(op_fk, min_size=1, max_size=1), 600, 8000),
+    Clause("history_fk_move_tool", c_history_kin, histories(OPS_NO_IK), 500, 16000),
+    Clause("history_with_solvers", c_history_all, histories(OPS_ALL), 400, 12000),
 ]
